@@ -5,6 +5,8 @@ use std::io::{BufRead, BufReader, Write};
 use std::panic::{catch_unwind, AssertUnwindSafe};
 
 mod coord;
+mod pexpr;
+mod sql;
 mod tup;
 mod util;
 mod val;
@@ -31,32 +33,56 @@ fn main() {
         .append(true)
         .open(&args[3])
         .expect("open out");
-    std::panic::set_hook(Box::new(|_| {}));
+    if std::env::var("AXV_VERBOSE").is_err() {
+        std::panic::set_hook(Box::new(|_| {}));
+    }
     for (i, line) in BufReader::new(f).lines().enumerate() {
         let line = line.unwrap();
         if i < start {
             continue;
         }
-        let toks: Vec<&str> = line.split_whitespace().collect();
-        let r = catch_unwind(AssertUnwindSafe(|| match mode {
-            "wire" => wire::run(&toks),
-            "val" => val::run(&toks),
-            "wal" => wal::run(&toks),
-            "tup" => tup::run(&toks),
-            "coord" => coord::run(&toks),
-            _ => panic!("unknown mode"),
-        }));
-        let s = match r {
-            Ok(s) => s,
-            Err(e) => {
-                let msg = if let Some(s) = e.downcast_ref::<String>() {
-                    s.clone()
-                } else if let Some(s) = e.downcast_ref::<&str>() {
-                    s.to_string()
-                } else {
-                    "?".into()
+        // every case runs on its own thread under a watchdog: a case that does not return in time is
+        // reported as "hang" and the process exits (the orchestrator restarts it at the next case)
+        let mode_s = mode.to_string();
+        let line_c = line.clone();
+        let (tx, rx) = std::sync::mpsc::channel::<String>();
+        std::thread::Builder::new()
+            .stack_size(64 << 20)
+            .spawn(move || {
+                let toks: Vec<&str> = line_c.split_whitespace().collect();
+                let r = catch_unwind(AssertUnwindSafe(|| match mode_s.as_str() {
+                    "sql" => sql::run_line(&line_c),
+                    "pexpr" => pexpr::run_line(&line_c),
+                    "wire" => wire::run(&toks),
+                    "val" => val::run(&toks),
+                    "wal" => wal::run(&toks),
+                    "tup" => tup::run(&toks),
+                    "coord" => coord::run(&toks),
+                    _ => panic!("unknown mode"),
+                }));
+                let s = match r {
+                    Ok(s) => s,
+                    Err(e) => {
+                        let msg = if let Some(s) = e.downcast_ref::<String>() {
+                            s.clone()
+                        } else if let Some(s) = e.downcast_ref::<&str>() {
+                            s.to_string()
+                        } else {
+                            "?".into()
+                        };
+                        format!("panic {}", msg.replace('\n', " "))
+                    }
                 };
-                format!("panic {}", msg.replace('\n', " "))
+                let _ = tx.send(s);
+            })
+            .unwrap();
+        let secs: u64 = std::env::var("AXV_CASE_TIMEOUT").ok().and_then(|v| v.parse().ok()).unwrap_or(30);
+        let s = match rx.recv_timeout(std::time::Duration::from_secs(secs)) {
+            Ok(s) => s,
+            Err(_) => {
+                writeln!(out, "hang").unwrap();
+                out.flush().unwrap();
+                std::process::exit(3);
             }
         };
         writeln!(out, "{}", s).unwrap();
